@@ -82,7 +82,7 @@ def search_molecules(
 
     if required_size is None:
         required_size = (0, len(atoms))
-    elif isinstance(required_size, int):
+    elif isinstance(required_size, int | np.integer):
         required_size = (required_size, required_size)
 
     for n, mol in enumerate(nx.connected_components(nx.from_numpy_array(connectivity))):
